@@ -326,7 +326,10 @@ class State(execution.State):
         for handler_id, handler_state in self._states.items():
             full_record = handler_state.for_storage()
             pure_record = handler_state.as_in_storage()
-            if pure_record != handler_state._origin:
+            pure_origin = handler_state._origin  # verbose storages return the nulls too; they are no difference.
+            if pure_origin is not None:
+                pure_origin = {key: val for key, val in pure_origin.items() if val is not None}
+            if pure_record != pure_origin:
                 storage.store(key=handler_id, record=full_record, body=body, patch=patch)
         storage.flush()
 
